@@ -11,13 +11,13 @@ using namespace vf ;
 
 static Ctx ctx ;
 
-struct ScriptSpec { int format = 0, ch = 1, mode = 0, nops = 0 ; uint64_t seed = 0 ; } ;	// mode 0 read, 1 write, 2 failing open
+struct ScriptSpec { int format = 0, ch = 1, mode = 0, nops = 0 ; uint64_t seed = 0 ; int path = 0 ; } ;	// path: 1 = a real file (sf_open by path) instead of virtual I/O	// mode 0 read, 1 write, 2 failing open
 
 static std::vector<ScriptSpec> specs_of (const Case &c)
 {	std::vector<ScriptSpec> v ; int ns = (int) c.geti ("ns") ;
 	for (int i = 0 ; i < ns ; i++)
 	{	ScriptSpec s ; std::string k = std::to_string (i) ;
-		s.format = (int) c.geti ("f" + k) ; s.ch = (int) c.geti ("c" + k) ; s.mode = (int) c.geti ("m" + k) ; s.nops = (int) c.geti ("k" + k) ; s.seed = (uint64_t) c.geti ("s" + k) ;
+		s.format = (int) c.geti ("f" + k) ; s.ch = (int) c.geti ("c" + k) ; s.mode = (int) c.geti ("m" + k) ; s.nops = (int) c.geti ("k" + k) ; s.seed = (uint64_t) c.geti ("s" + k) ; s.path = (int) c.geti ("p" + k, 0) ;
 		v.push_back (s) ;
 	}
 	return v ;
@@ -36,7 +36,10 @@ static Case gen_case ()
 	if (stateful.empty ()) for (auto *e : all_vio_entries ()) { const Codec *cd = codec_of (e->format) ; int maj = e->format & SF_FORMAT_TYPEMASK ; if (!is_granular (e->format) || cd->is_float || maj == SF_FORMAT_XI) stateful.push_back (e) ; }
 	const FmtEntry *shared = pickEntry (stateful.empty () ? all_vio_entries () : stateful) ;
 	for (int i = 0 ; i < ns ; i++)
-	{	const FmtEntry *e = same ? shared : pickEntry (all_vio_entries ()) ; std::string k = std::to_string (i) ;
+	{	// one script in three works on a real file (descriptors of its own, SD2 included), the others on virtual I/O
+		int path = *rangeOf<int> (0, 2) == 0 ; const FmtEntry *e = same ? shared : pickEntry (path ? all_entries () : all_vio_entries ()) ; std::string k = std::to_string (i) ;
+		if ((e->format & SF_FORMAT_TYPEMASK) == SF_FORMAT_SD2) path = 1 ;
+		c.seti ("p" + k, path) ;
 		c.seti ("f" + k, e->format) ; c.seti ("c" + k, pickChannels (e, 30)) ;
 		c.seti ("m" + k, *rc::gen::element (0, 0, 0, 1, 1, 1, 2)) ;
 		c.seti ("k" + k, merge == 4 ? *rangeOf<int> (1, 2) : *rangeOf<int> (1, 10)) ;
@@ -60,7 +63,25 @@ struct Script
 	std::vector<std::string> lines ; int data_ops = 0 ;
 	bool vox = false ; const Codec *cd = nullptr ;
 
-	void init () { rng = Rng (sp.seed ^ 0x5bd1e995u) ; cd = codec_of (sp.format) ; vox = cd && cd->subtype == SF_FORMAT_VOX_ADPCM ; if (sp.mode != 1) mem.data = fixture ; }
+	std::string path, rpath ; int index = 0 ;
+	// fixture layout for the path route: 4-byte length of the data file, data file, then (SD2) the "._name" resource fork
+	void init ()
+	{	rng = Rng (sp.seed ^ 0x5bd1e995u) ; cd = codec_of (sp.format) ; vox = cd && cd->subtype == SF_FORMAT_VOX_ADPCM ;
+		if (!sp.path) { if (sp.mode != 1) mem.data = fixture ; return ; }
+		std::string name = "c19_" + std::to_string (index) +	/* no pid: SD2 stores the file name in its resource fork, and the solo and the interleaved run must produce the same bytes */ ((sp.format & SF_FORMAT_TYPEMASK) == SF_FORMAT_SD2 ? ".sd2" : ".dat") ;
+		path = scratch_dir () + "/" + name ; rpath = scratch_dir () + "/._" + name ; unlink (path.c_str ()) ; unlink (rpath.c_str ()) ;
+		if (sp.mode != 1 && fixture.size () >= 4)
+		{	uint32_t n ; memcpy (&n, fixture.data (), 4) ; if ((size_t) n + 4 > fixture.size ()) n = (uint32_t) (fixture.size () - 4) ;
+			write_file (path, std::vector<uint8_t> (fixture.begin () + 4, fixture.begin () + 4 + n)) ;
+			if (fixture.size () > (size_t) n + 4) write_file (rpath, std::vector<uint8_t> (fixture.begin () + 4 + n, fixture.end ())) ;
+		}
+	}
+	void final_bytes (std::vector<uint8_t> &out)
+	{	if (!sp.path) { out = mem.data ; return ; }
+		read_file (path, out) ; std::vector<uint8_t> r2 ; if (read_file (rpath, r2)) out.insert (out.end (), r2.begin (), r2.end ()) ;
+		unlink (path.c_str ()) ; unlink (rpath.c_str ()) ;
+	}
+	SNDFILE *open_it (int mode) { return sp.path ? sf_open (path.c_str (), mode, &info) : open_mem (mem, mode, &info) ; }
 	int total_steps () const { return sp.mode == 2 ? 1 : sp.nops + 2 ; }
 	void log (const std::string &s) { lines.push_back (s + " err=" + std::to_string (h ? sf_error (h) : -1)) ; }
 
@@ -68,15 +89,15 @@ struct Script
 	{	if (done) return ;
 		if (pc == 0)
 		{	memset (&info, 0, sizeof (info)) ;
-			if (sp.mode == 1) { info.format = sp.format ; info.channels = sp.ch ; info.samplerate = 8000 + (int) (sp.seed % 5) * 8000 ; h = open_mem (mem, SFM_WRITE, &info) ; }
-			else { if ((sp.format & SF_FORMAT_TYPEMASK) == SF_FORMAT_RAW) { info.format = sp.format ; info.channels = sp.ch ; info.samplerate = 8000 ; } h = open_mem (mem, SFM_READ, &info) ; }
+			if (sp.mode == 1) { info.format = sp.format ; info.channels = sp.ch ; info.samplerate = 8000 + (int) (sp.seed % 5) * 8000 ; h = open_it (SFM_WRITE) ; }
+			else { if ((sp.format & SF_FORMAT_TYPEMASK) == SF_FORMAT_RAW) { info.format = sp.format ; info.channels = sp.ch ; info.samplerate = 8000 ; } h = open_it (SFM_READ) ; }
 			int ge = sf_error (nullptr) ; const char *gs = sf_strerror (nullptr) ;
 			log (std::string ("open ") + (h ? "ok" : "NULL") + " global_err=" + std::to_string (ge) + " msg=" + (gs ? gs : "") + " frames=" + std::to_string ((long long) info.frames) + " ch=" + std::to_string (info.channels) + " fmt=" + std::to_string (info.format)) ;
-			pc ++ ; if (!h || sp.mode == 2) { if (h) { sf_close (h) ; h = nullptr ; } done = true ; }
+			pc ++ ; if (!h || sp.mode == 2) { if (h) { sf_close (h) ; h = nullptr ; } done = true ; if (sp.path) { std::vector<uint8_t> drop ; final_bytes (drop) ; } }
 			return ;
 		}
 		if (pc == sp.nops + 1)
-		{	int rc = sf_close (h) ; h = nullptr ; lines.push_back ("close rc=" + std::to_string (rc) + " bytes=" + std::to_string (mem.data.size ()) + " hash=" + std::to_string (fnv1a (mem.data.data (), mem.data.size ()))) ;
+		{	int rc = sf_close (h) ; h = nullptr ; std::vector<uint8_t> fb ; final_bytes (fb) ; lines.push_back ("close rc=" + std::to_string (rc) + " bytes=" + std::to_string (fb.size ()) + " hash=" + std::to_string (fnv1a (fb.data (), fb.size ()))) ;
 			done = true ; pc ++ ; return ;
 		}
 		pc ++ ;
@@ -89,7 +110,7 @@ struct Script
 				log ("readf " + std::string (stype_name [t]) + " " + std::to_string (fr) + " -> " + std::to_string ((long long) got) + " data=" + std::to_string (fnv1a (b.p, (size_t) got * ch * stype_size (t)))) ; data_ops ++ ;
 			}
 			else if (op < 7)
-			{	int whence = (int) rng.below (3) ; long long off = (long long) rng.below (3000) - (whence == SEEK_SET ? 200 : 1500) ;
+			{	int whence = (int) rng.below (3) ; long long F = info.frames > 0 ? (long long) info.frames : 1 ; long long off = whence == SEEK_SET ? (long long) rng.below ((uint64_t) F + 200) - 100 : (long long) rng.below (2 * (uint64_t) F + 1) - F ;
 				sf_count_t r = sf_seek (h, off, whence) ; log ("seek " + std::to_string (off) + "," + std::to_string (whence) + " -> " + std::to_string ((long long) r)) ;
 			}
 			else if (op == 7) { int s = SF_STR_FIRST + (int) rng.below (SF_STR_LAST) ; const char *p = sf_get_string (h, s) ; log ("get_string " + std::to_string (s) + " -> " + (p ? p : "(null)")) ; }
@@ -139,16 +160,33 @@ static void put_str (std::string &o, const std::string &s) { uint32_t n = (uint3
 static bool get_str (const std::string &in, size_t &pos, std::string &s) { if (pos + 4 > in.size ()) return false ; uint32_t n ; memcpy (&n, in.data () + pos, 4) ; pos += 4 ; if (pos + n > in.size ()) return false ; s = in.substr (pos, n) ; pos += n ; return true ; }
 
 static std::string make_fixture (const ScriptSpec &sp)
-{	// a file of the script's format: 50..2500 frames, strings where supported; mode 2: that file cut short or with a damaged header
-	Rng rng (sp.seed) ; OpenSpec s ; s.format = sp.format ; s.ch = sp.ch ; s.rate = 16000 ; MemFile m ; SNDFILE *f = open_write_mem (m, s) ; if (!f) return "" ;
-	sf_set_string (f, SF_STR_TITLE, ("title " + std::to_string (sp.seed % 1000)).c_str ()) ; sf_set_string (f, SF_STR_ARTIST, "someone") ;
-	long long N = 50 + (long long) rng.below (2450) ; if ((N * sp.ch) & 1) N ++ ;
-	std::vector<short> a ((size_t) N * sp.ch) ; for (auto &x : a) x = (short) rng.next () ; sf_writef_short (f, a.data (), N) ; sf_close (f) ;
+{	// a file of the script's format: 50..2500 frames (several 4096-frame packets for ALAC), strings where supported; mode 2: that file cut short or with a damaged header
+	Rng rng (sp.seed) ; OpenSpec s ; s.format = sp.format ; s.ch = sp.ch ; s.rate = 16000 ; const Codec *cd = codec_of (sp.format) ;
+	bool alac = cd && cd->subtype >= SF_FORMAT_ALAC_16 && cd->subtype <= SF_FORMAT_ALAC_32 ;
+	long long N = alac ? 5000 + (long long) rng.below (15000) : 50 + (long long) rng.below (2450) ; if ((N * sp.ch) & 1) N ++ ;
+	std::vector<short> a ((size_t) N * sp.ch) ; for (auto &x : a) x = (short) rng.next () ;
+	std::vector<uint8_t> data, fork ;
+	if (sp.path)
+	{	std::string name = "c19fx_" + std::to_string ((long) getpid ()) + ((sp.format & SF_FORMAT_TYPEMASK) == SF_FORMAT_SD2 ? ".sd2" : ".dat"), path = scratch_dir () + "/" + name, rpath = scratch_dir () + "/._" + name ;
+		unlink (path.c_str ()) ; unlink (rpath.c_str ()) ; SF_INFO wi ; memset (&wi, 0, sizeof (wi)) ; wi.format = s.format ; wi.channels = s.ch ; wi.samplerate = s.rate ;
+		SNDFILE *f = sf_open (path.c_str (), SFM_WRITE, &wi) ; if (!f) return "" ;
+		sf_set_string (f, SF_STR_TITLE, ("title " + std::to_string (sp.seed % 1000)).c_str ()) ; sf_writef_short (f, a.data (), N) ; sf_close (f) ;
+		read_file (path, data) ; read_file (rpath, fork) ; unlink (path.c_str ()) ; unlink (rpath.c_str ()) ;
+	}
+	else
+	{	MemFile m ; SNDFILE *f = open_write_mem (m, s) ; if (!f) return "" ;
+		sf_set_string (f, SF_STR_TITLE, ("title " + std::to_string (sp.seed % 1000)).c_str ()) ; sf_set_string (f, SF_STR_ARTIST, "someone") ;
+		sf_writef_short (f, a.data (), N) ; sf_close (f) ; data = m.data ;
+	}
 	if (sp.mode == 2)
 	{	int how = (int) rng.below (3) ;
-		if (how == 0) m.data.resize (rng.below (12)) ; else if (how == 1) for (size_t i = 0 ; i < m.data.size () && i < 64 ; i++) m.data [i] = (uint8_t) rng.next () ; else m.data.assign (200, (uint8_t) 0xff) ;
+		if (how == 0) data.resize (rng.below (12)) ; else if (how == 1) for (size_t i = 0 ; i < data.size () && i < 64 ; i++) data [i] = (uint8_t) rng.next () ; else data.assign (200, (uint8_t) 0xff) ;
+		fork.clear () ;
 	}
-	return std::string ((const char *) m.data.data (), m.data.size ()) ;
+	std::string out ;
+	if (sp.path) { uint32_t n = (uint32_t) data.size () ; out.append ((const char *) &n, 4) ; }
+	out.append ((const char *) data.data (), data.size ()) ; if (sp.path) out.append ((const char *) fork.data (), fork.size ()) ;
+	return out ;
 }
 
 static std::string pack (std::vector<Script> &ss)
@@ -186,7 +224,7 @@ static Result run_case (const Case &c)
 	// solo runs
 	std::vector<std::string> solo (ns) ; std::vector<int> steps (ns), dataops (ns) ;
 	for (int i = 0 ; i < ns ; i++)
-	{	std::string out = in_child ([&] () { std::vector<Script> ss (1) ; ss [0].sp = proto [i].sp ; ss [0].fixture = proto [i].fixture ; ss [0].init () ; while (!ss [0].done) ss [0].step () ; return pack (ss) ; }, st) ;
+	{	std::string out = in_child ([&] () { std::vector<Script> ss (1) ; ss [0].sp = proto [i].sp ; ss [0].fixture = proto [i].fixture ; ss [0].index = i ; ss [0].init () ; while (!ss [0].done) ss [0].step () ; return pack (ss) ; }, st) ;
 		if (!st.empty ()) { Result x = fail ("solo_run_failed", "script " + std::to_string (i) + ": " + st) ; x.sig.set ("solo_codec", codec_of (specs [i].format)->name) ; return x ; }
 		size_t pos = 0 ; if (!get_str (out, pos, solo [i])) return fail ("solo_run_failed", "short payload") ; uint32_t d = 0 ; memcpy (&d, out.data () + pos, 4) ; dataops [i] = (int) d ;
 		steps [i] = (int) std::count (solo [i].begin (), solo [i].end (), '\n') ;
@@ -200,7 +238,7 @@ static Result run_case (const Case &c)
 	{ int nr = 0, nw = 0, nb = 0 ; for (auto &sp : specs) (sp.mode == 0 ? nr : sp.mode == 1 ? nw : nb) ++ ; r.classes.push_back (std::string ("modes:") + (nr ? "r" : "") + (nw ? "w" : "") + (nb ? "x" : "")) ; }
 	for (auto &order : merges)
 	{	std::string out = in_child ([&] ()
-		{	std::vector<Script> ss (ns) ; for (int i = 0 ; i < ns ; i++) { ss [i].sp = proto [i].sp ; ss [i].fixture = proto [i].fixture ; ss [i].init () ; }
+		{	std::vector<Script> ss (ns) ; for (int i = 0 ; i < ns ; i++) { ss [i].sp = proto [i].sp ; ss [i].fixture = proto [i].fixture ; ss [i].index = i ; ss [i].init () ; }
 			for (int i : order) ss [i].step () ;
 			for (auto &s : ss) while (!s.done) s.step () ;
 			return pack (ss) ;
